@@ -285,6 +285,51 @@ Definition consensus (caller : list (Z * Z) -> Z) (ref : Z -> Z) (maxN : option 
   | Some s => Some (map (record_of ref m) (partial_reads (call_at caller all) maxN (cigar_of_runs rs) s))
   end.
 
+(* ------------------------------------------------------------------ one molecule object over time
+   The object is grown by add_fragment / add_molecule and asked for its consensus in between.
+   State = the fragments held (Molecule.fragments); everything a consensus request reads
+   (reads, UMI counter, fragment count, mapping qualities) is a function of that list, and a
+   request changes nothing.  sample / site / barcode / strand are fixed by the first fragment. *)
+Record frag := mkFrag { f_umi : list Z; f_mapq : Z; f_reads : list read }.
+Inductive mop : Type :=
+| AddFragment (f : frag)
+| AddMolecule (fs : list frag)
+| Consensus (maxN : option Z).
+
+Fixpoint list_eqb (a b : list Z) : bool :=
+  match a, b with
+  | [], [] => true
+  | x :: a', y :: b' => (x =? y) && list_eqb a' b'
+  | _, _ => false
+  end.
+Definition count_umi (u : list Z) (all : list (list Z)) : nat := length (filter (list_eqb u) all).
+(* umi_counter.most_common(1): the highest count, the first inserted among equals *)
+Definition umi_of (all : list (list Z)) : option (list Z) :=
+  fold_left (fun best u => match best with
+                           | None => Some u
+                           | Some b => if Nat.ltb (count_umi b all) (count_umi u all) then Some u else Some b
+                           end) all None.
+
+Record base_meta := mkBase { b_sample : list Z; b_site : option Z; b_bc : list Z; b_strand : option bool }.
+Definition meta_of (b : base_meta) (fs : list frag) : meta :=
+  mkMeta (b_sample b) (umi_of (map f_umi fs)) (b_site b) (b_bc b) (Z.of_nat (length fs)) 0
+         (b_strand b) (map f_mapq fs).
+Definition reads_of (fs : list frag) : list read := flat_map f_reads fs.
+
+Definition apply_op (st : list frag) (o : mop) : list frag :=
+  match o with AddFragment f => st ++ [f] | AddMolecule fs => st ++ fs | Consensus _ => st end.
+
+(* the answers to the consensus requests of an operation sequence, in order *)
+Fixpoint run_ops {A} (answer : option Z -> list frag -> A) (ops : list mop) (st : list frag) : list A :=
+  match ops with
+  | [] => []
+  | o :: t => (match o with Consensus mx => [answer mx st] | _ => [] end) ++ run_ops answer t (apply_op st o)
+  end.
+
+Definition answer (caller : list (Z * Z) -> Z) (ref : Z -> Z) (b : base_meta) (mx : option Z)
+  (fs : list frag) : option (list crec) :=
+  consensus caller ref mx (meta_of b fs) (reads_of fs).
+
 (* the unrepaired reference stretch of get_dedup_reads: fetch(reference_start, reference_end), gaps included *)
 Definition md_old (ref : Z -> Z) (p : partial) : list Z :=
   match pa_end p with
@@ -331,6 +376,25 @@ Definition enc_rec (classes : list Z) (r : crec) : Val :=
       ofB (c_reverse r); VZ (c_mapq r); ofZs (c_SM r); ofOpt VZ (c_DS r); ofOpt ofZs (c_RX r);
       ofOpt ofZs (c_BC r); ofOpt ofZs (c_MI r); VZ (c_TF r); ofZs classes].
 
+(* mode 4 input [ptab; [ref_off; ref codes]; [sample; site opt; bc; strand opt]; ops]
+     op = [0; frag] | [1; [frag ...]] | [2; maxN opt];  frag = [umi; mapq; [read ...]]
+   output: one mode-0 style answer per consensus request *)
+Definition dec_frag (v : Val) : frag :=
+  mkFrag (getZs (nthV 0 v)) (getZ (nthV 1 v)) (map dec_read (getL (nthV 2 v))).
+Definition dec_op (v : Val) : mop :=
+  let k := getZ (nthV 0 v) in
+  if k =? 0 then AddFragment (dec_frag (nthV 1 v))
+  else if k =? 1 then AddMolecule (map dec_frag (getL (nthV 1 v)))
+  else Consensus (dec_opt getZ (nthV 1 v)).
+Definition enc_answer (pc : Z -> Q) (fs : list frag) (a : option (list crec)) : Val :=
+  match a with
+  | None => VL []
+  | Some recs =>
+      let all := all_obs (reads_of fs) in
+      VL (map (fun r => enc_rec (map (fun p => snd (call_fast pc (obs_at all p)))
+                                      (expand (c_start r) (c_cigar r))) r) recs)
+  end.
+
 Definition run_C15 (mode : Z) (v : Val) : Val :=
   let pc := pc_of (getZs (nthV 0 v)) in
   let ref := ref_of (getZ (nthV 0 (nthV 1 v))) (getZs (nthV 1 (nthV 1 v))) in
@@ -356,5 +420,11 @@ Definition run_C15 (mode : Z) (v : Val) : Val :=
       let c := map (fun x => let p := getPair x in if fst p =? 0 then CM (snd p) else CN (snd p))
                    (getL (nthV 1 v)) in
       VL [ofZs (expand (getZ (nthV 0 v)) c); VZ (query_len c)]
+  | 4 =>
+      if negb (valid_tab (getZs (nthV 0 v))) then bad else
+      let b := mkBase (getZs (nthV 0 (nthV 2 v))) (dec_opt getZ (nthV 1 (nthV 2 v)))
+                      (getZs (nthV 2 (nthV 2 v))) (dec_opt getB (nthV 3 (nthV 2 v))) in
+      VL (run_ops (fun mx fs => enc_answer pc fs (answer (fun os => fst (call_fast pc os)) ref b mx fs))
+                  (map dec_op (getL (nthV 3 v))) [])
   | _ => bad
   end.
